@@ -211,6 +211,7 @@ def variant_meta(v):
             p = plist[(v + len(key)) % len(plist)]
             meta.setdefault(sec, {})[key] = EXP[t][p]
     meta["user"] = {"note": "hello wörld", "number": 3 + v, "ratio": 2.5 * v,
+                    "ratio a:b": 1.5 + v,
                     "flag": bool(v % 2), "listy": [1, 2, 3 + v]}
     return meta
 
